@@ -101,18 +101,19 @@ SPEC_EXPRS = [
 ]
 
 
-def most_specific_oracle(rules, bs, keys):
-    """keys[i] = (pc, kinds, plen) of rule i.  Returns (category rule, subcategory rule)."""
+def most_specific_oracle(rules, bs, keys, prios=None):
+    """keys[i] = (pc, kinds, plen) of rule i; prios[i] = the priority WRITTEN in the file (default 50), when the rules
+    come from the real parser.  Returns (category rule, subcategory rule)."""
     best = None
     best_key = None
     sbest = None
     sbest_key = None
-    for r, b, k in zip(rules, bs, keys):
+    for i, (r, b, k) in enumerate(zip(rules, bs, keys)):
         if not b:
             continue
         if r.category == '':
             continue            # C02: a rule without category never categorizes
-        key = (r.priority,) + tuple(k)
+        key = ((r.priority if prios is None else prios[i]),) + tuple(k)
         if best is None or key > best_key:
             best, best_key = r, key
         if r.subcategory != '' and (sbest is None or key > sbest_key):
